@@ -312,7 +312,10 @@ def main() -> int:
     from dissect.hypervisor.disk import c_vdi as m_vdi
     w.ns("vdi")
     w.struct("HeaderDescriptor", m_vdi.c_vdi.HeaderDescriptor,
-             ["Signature", "BlocksOffset", "DataOffset", "SectorSize", "DiskSize", "BlockSize", "BlocksInHDD"])
+             ["Signature", "BlocksOffset", "DataOffset", "SectorSize", "DiskSize", "BlockSize", "BlocksInHDD",
+              # C14 (exposed header fields)
+              "Version", "HeaderSize", "ImageType", "ImageFlags", "NumCylinders", "NumHeads", "NumSectors", "BlockExtraData",
+              "BlocksAllocated", "UUIDVDI", "UUIDSNAP", "UUIDLink", "UUIDParent"])
     w.nat("VDI_SIGNATURE", get(m_vdi, "VDI_SIGNATURE"))
     w.int("UNALLOCATED", get(m_vdi, "UNALLOCATED"))
     w.int("SPARSE", get(m_vdi, "SPARSE"))
@@ -322,8 +325,14 @@ def main() -> int:
     from dissect.hypervisor.disk import c_vhd as m_vhd
     from dissect.hypervisor.disk import vhd as m_vhdpy
     w.ns("vhd")
-    w.struct("footer", m_vhd.c_vhd.footer, ["features", "data_offset", "current_size"])
-    w.struct("dynamic_header", m_vhd.c_vhd.dynamic_header, ["table_offset", "max_table_entries", "block_size"])
+    w.struct("footer", m_vhd.c_vhd.footer, ["features", "data_offset", "current_size",
+                                            # C14 (exposed footer fields)
+                                            "cookie", "version", "timestamp", "creator_application", "creator_version", "creator_host_os",
+                                            "original_size", "disk_geometry", "disk_type", "checksum", "unique_id"])
+    w.struct("dynamic_header", m_vhd.c_vhd.dynamic_header, ["table_offset", "max_table_entries", "block_size",
+                                                            # C14
+                                                            "cookie", "data_offset", "header_version", "checksum", "parent_unique_id",
+                                                            "parent_timestamp", "parent_unicode_name"])
     w.nat("SECTOR_SIZE", get(m_vhd, "SECTOR_SIZE"))
     # BAT entry codec
     ent = m_vhdpy.BlockAllocationTable.ENTRY
@@ -335,7 +344,10 @@ def main() -> int:
     from dissect.hypervisor.disk import c_hdd as m_hdd
     w.ns("hdd")
     w.struct("pvd_header", m_hdd.c_hdd.pvd_header,
-             ["m_Sig", "m_Sectors", "m_Size", "m_SizeInSectors_v1", "m_SizeInSectors_v2", "m_DiskInUse", "m_FirstBlockOffset"])
+             ["m_Sig", "m_Sectors", "m_Size", "m_SizeInSectors_v1", "m_SizeInSectors_v2", "m_DiskInUse", "m_FirstBlockOffset",
+              # C14
+              "m_Type", "m_Heads", "m_Cylinders", "m_Flags", "m_FormatExtensionOffset"])
+    w.nat("SIGNATURE_DISK_IN_USE", m_hdd.c_hdd.SIGNATURE_DISK_IN_USE)
     w.bytes("SIGNATURE_STRUCTURED_DISK_V1", m_hdd.c_hdd.SIGNATURE_STRUCTURED_DISK_V1)
     w.bytes("SIGNATURE_STRUCTURED_DISK_V2", m_hdd.c_hdd.SIGNATURE_STRUCTURED_DISK_V2)
     w.nat("SECTOR_SIZE", get(m_hdd, "SECTOR_SIZE"))
@@ -347,13 +359,15 @@ def main() -> int:
     cx = m_vhdx.c_vhdx
     w.ns("vhdx")
     w.struct("file_identifier", cx.file_identifier, ["signature"])
-    w.struct("header", cx.header, ["signature", "sequence_number"])
+    w.struct("header", cx.header, ["signature", "sequence_number",
+                                   # C14 (fields of the active header)
+                                   "checksum", "file_write_guid", "data_write_guid", "log_guid", "log_version", "version", "log_length", "log_offset"])
     w.struct("region_table_header", cx.region_table_header, ["signature", "entry_count"])
     w.struct("region_table_entry", cx.region_table_entry, ["guid", "file_offset", "length", "required"])
     w.struct("bat_entry", cx.bat_entry, ["state", "file_offset_mb"])
     w.struct("metadata_table_header", cx.metadata_table_header, ["signature", "entry_count"])
     w.struct("metadata_table_entry", cx.metadata_table_entry, ["item_id", "offset", "length", "is_required"])
-    w.struct("file_parameters", cx.file_parameters, ["block_size", "has_parent"])
+    w.struct("file_parameters", cx.file_parameters, ["block_size", "has_parent", "leave_block_allocated"])
     w.struct("virtual_disk_id", cx.virtual_disk_id, ["virtual_disk_id"])
     w.struct("parent_locator_header", cx.parent_locator_header, ["locator_type", "key_value_count"])
     w.struct("parent_locator_entry", cx.parent_locator_entry, ["key_offset", "value_offset", "key_length", "value_length"])
@@ -474,6 +488,50 @@ def main() -> int:
     lits = [v for v in func_literals(m_qpy, "QCow2._decompress") if isinstance(v, int)]
     w.natlist("decompress_literals", lits)
     w.end("qcow2")
+
+    # ---------------- C14: metadata layer (snapshot table walk, extension payload structs, descriptor line splitting)
+    try:
+        import textwrap
+        w.ns("c14")
+        w.struct("Qcow2BitmapHeaderExt", cq.Qcow2BitmapHeaderExt, ["nb_bitmaps", "reserved32", "bitmap_directory_size", "bitmap_directory_offset"])
+        w.struct("Qcow2CryptoHeaderExtension", cq.Qcow2CryptoHeaderExtension, ["offset", "length"])
+
+        def _src_tree(obj):
+            obj = getattr(obj, "func", obj)            # cached_property
+            return ast.parse(textwrap.dedent(inspect.getsource(obj)))
+
+        def _ints(tree):
+            out = [(n.lineno, n.col_offset, n.value) for n in ast.walk(tree)
+                   if isinstance(n, ast.Constant) and isinstance(n.value, int) and not isinstance(n.value, bool)]
+            return [v for _, _, v in sorted(out)]
+
+        def _strs(tree):
+            out = [(n.lineno, n.col_offset, n.value) for n in ast.walk(tree) if isinstance(n, ast.Constant) and isinstance(n.value, str)]
+            return [v for _, _, v in sorted(out) if len(v) <= 12]
+
+        t = _src_tree(m_qpy.QCow2.__dict__["snapshots"])
+        w.natlist("snapshots_literals", _ints(t))
+        ops = [type(n.op).__name__ for n in ast.walk(t) if isinstance(n, (ast.BinOp, ast.UnaryOp))]
+        w.strlist("snapshots_ops", sorted(ops))
+        t = _src_tree(m_qpy.QCow2._read_extensions)
+        w.strlist("read_extensions_ops", sorted(type(n.op).__name__ for n in ast.walk(t) if isinstance(n, (ast.BinOp, ast.UnaryOp))))
+        t = _src_tree(m_vmdkpy.DiskDescriptor.parse)
+        # the string method(s) applied with the "=" separator (partition = split at the first '=')
+        seps = [(n.lineno, n.col_offset, n.func.attr) for n in ast.walk(t) if isinstance(n, ast.Call) and isinstance(n.func, ast.Attribute)
+                and any(isinstance(a, ast.Constant) and a.value == "=" for a in n.args)]
+        w.strlist("descriptor_split_methods", [v for _, _, v in sorted(seps)])
+        w.strlist("descriptor_parse_strings", [v for v in _strs(t) if "\n" not in v or v == "\n"][:12])
+        t = _src_tree(m_vmdkpy.ExtentDescriptor.__post_init__)
+        w.strlist("extent_post_init_strings", _strs(t))
+        t = _src_tree(m_vhdxpy.ParentLocator.__init__)
+        w.strlist("parent_locator_strings", _strs(t))
+        t = _src_tree(m_vhdxpy.VHDX.__init__)
+        cmp_ops = [(n.lineno, n.col_offset, type(n.ops[0]).__name__) for n in ast.walk(t)
+                   if isinstance(n, ast.Compare) and any(isinstance(x, ast.Attribute) and x.attr == "sequence_number" for x in ast.walk(n))]
+        w.strlist("header_choice_ops", [v for _, _, v in sorted(cmp_ops)])
+        w.end("c14")
+    except Exception as e:  # noqa
+        problems.append(f"c14: {e}")
 
     # ---------------- vmtar
     try:
